@@ -132,7 +132,7 @@ pub fn victim_units(prog: &str) -> (Vec<Unit>, Vec<Unit>) {
 }
 
 pub const ENDINGS: &[&str] = &[
-    "natural", "terminate", "harddrop", "fin", "bad-close", "bad-describe", "bind-unknown", "short-length", "unknown-type", "idle-timeout", "stmt-timeout",
+    "natural", "terminate", "harddrop", "fin", "bad-close", "bad-describe", "bind-unknown", "short-length", "unknown-type", "idle-timeout", "stmt-timeout", "hc-timeout",
 ];
 
 fn is_hang(prog: &str) -> bool {
@@ -150,6 +150,7 @@ pub fn scenario(mode: &str, cache: usize, prog: &str, cut: (usize, usize), endin
     let at_end = k == units.len();
     match ending {
         "natural" if !at_end => return None,
+        "hc-timeout" if !at_end || second_victim.is_none() => return None,
         "terminate" | "bad-close" | "bad-describe" | "bind-unknown" | "short-length" | "unknown-type" | "idle-timeout" if !at_boundary => return None,
         "stmt-timeout" if !is_hang(prog) || !at_end => return None,
         _ => {}
@@ -214,6 +215,24 @@ pub fn scenario(mode: &str, cache: usize, prog: &str, cut: (usize, usize), endin
             if mode == "session" {
                 s = s.send(wire::terminate(), "X");
             }
+        }
+        "hc-timeout" => {
+            // the victim finishes and leaves; the connection then sits idle past healthcheck_delay and the
+            // server answers the next checkout's health check only after healthcheck_timeout has given up on it
+            for un in &natural {
+                s = s.send(un.bytes.clone(), &un.label);
+                if un.wait == b'Z' {
+                    s = s.expect_z();
+                }
+            }
+            s = s.send(wire::terminate(), "X");
+            let addr = servers[0].addr.clone();
+            env_steps.push(Step::Wait(Cond::ActorsDone(vec![0])));
+            env_steps.push(Step::Call(
+                "health check answered late".into(),
+                std::sync::Arc::new(move |n| n.servers.get_mut(&addr).unwrap().faults.push(Fault { on: Matcher::HealthCheck, kind: FaultKind::Delay(1500), once: true })),
+            ));
+            env_steps.push(Step::Advance(31_000));
         }
         "terminate" => s = s.send(wire::terminate(), "X"),
         "harddrop" => s = s.close(CloseKind::HardDrop),
@@ -499,13 +518,24 @@ pub fn build(tier: &str) -> SimCheck {
             }
         }
     }
+    // a health check that times out on a slow (not dead) server, between the victim and the observer
+    for cache in [0usize, 8] {
+        for prog in ["set", "opentxn", "prepare", "namedparse"] {
+            let (units, _) = victim_units(prog);
+            for mid in ["set", "opentxn"] {
+                if let Some(sc) = scenario("transaction", cache, prog, (units.len(), 0), "hc-timeout", Some(mid)) {
+                    scenarios.push(sc);
+                }
+            }
+        }
+    }
     scenarios.extend(midreply_scenarios(thorough));
     SimCheck {
         scenarios,
         oracle: Box::new(oracle),
         bound: 1,
         limits: Limits { max_wall_s: if thorough { 1500.0 } else { 50.0 }, ..Default::default() },
-        rule: "scenario = statement cache on/off x victim program x cut point (every message boundary; every byte offset inside the messages of 4 programs in quick, of all programs in thorough) x ending (natural, Terminate, hard drop, FIN, 5 malformed/invalid messages, idle-in-transaction timeout, statement timeout), then an observer checks out with pool_size=1; plus every generated extended-protocol batch program of C08 as victim (leaving by Terminate / hard drop); plus mid-reply disconnects at every backend message boundary (gated delivery, 1 deviation); distinct = distinct end-to-end histories".into(),
+        rule: "scenario = statement cache on/off x victim program x cut point (every message boundary; every byte offset inside the messages of 4 programs in quick, of all programs in thorough) x ending (natural, Terminate, hard drop, FIN, 5 malformed/invalid messages, idle-in-transaction timeout, statement timeout, a health check timing out on a slow server before the next checkout), then an observer checks out with pool_size=1; plus every generated extended-protocol batch program of C08 as victim (leaving by Terminate / hard drop); plus mid-reply disconnects at every backend message boundary (gated delivery, 1 deviation); distinct = distinct end-to-end histories".into(),
         assumptions: vec![
             "the reference backend's own session state at the observer's first message defines 'clean'".into(),
             "state created inside a transaction block is out of the property's scope and not judged".into(),
